@@ -118,6 +118,34 @@ def label_case(args):
     return out
 
 
+def sweep_case(args):
+    """one program of the systematic RVC-boundary sweep (harness/elig_sweep.py)"""
+    idx, jl = args
+    asm = progs.get_asm()
+    lines = [progs.Ln.from_json(j) for j in jl]
+    r = evaluate(asm, lines, idx, seeds=SEEDS[:3])
+    r['kinds'] = ['sweep']
+    if r['status'][False] == 'ok' and r['status'][True] != 'ok':
+        # the -c build of the whole program was refused: find every eligible line that is not
+        # emitted in 16 bits by assembling the lines one at a time
+        batch = oracle.Batch()
+        pend = []
+        for ln in lines:
+            a = progs.assemble_chunks(asm, ln.text + '\n', False)
+            if a.status != 'ok' or len(a.bytes) != 4:
+                continue
+            b = progs.assemble_chunks(asm, ln.text + '\n', True)
+            if b.status == 'ok' and len(b.bytes) == 2:
+                continue
+            pend.append((ln, a.bytes, b, batch.ask('eligible %d' % int.from_bytes(a.bytes, 'little'))))
+        batch.run()
+        for ln, ab, b, q in pend:
+            if batch.get(q) == 'yes':
+                r['problems'].append(('C20', 'line {!r} ({}) is the expansion of a legal RV32C instruction but with -c it is {}'.format(
+                    ln.text.strip(), ab.hex(), 'refused' if b.status != 'ok' else 'emitted as ' + b.bytes.hex()), ln.text))
+    return r
+
+
 def one_case(args):
     seedv, idx, tier = args
     os.environ['VERIF_SEED'] = str(seedv)
@@ -131,7 +159,8 @@ def one_case(args):
     return evaluate(asm, lines, idx)
 
 
-def evaluate(asm, lines, idx=0):
+def evaluate(asm, lines, idx=0, seeds=None):
+    seeds = seeds or SEEDS
     src = progs.source(lines)
     out = dict(idx=idx, src=src, lines=[l.to_json() for l in lines], problems=[], status={}, n_exec=0,
                n_compressed=0, n_eligible=0, kinds=sorted(set(l.kind for l in lines)))
@@ -139,8 +168,10 @@ def evaluate(asm, lines, idx=0):
     for c in (False, True):
         out['status'][c] = res[c].status + ('' if res[c].status == 'ok' else ':' + str(res[c].exc))
     if res[False].status == 'ok' and res[True].status != 'ok':
-        out['problems'].append(('C12', 'assembles without -c but with -c fails ({} at line {})'.format(
-            res[True].exc, res[True].err_line)))
+        el = res[True].err_line
+        lt = lines[el - 1].text if el and el <= len(lines) else None
+        out['problems'].append(('C12', 'assembles without -c but with -c fails ({} at line {}: {!r})'.format(
+            res[True].exc, el, lt.strip() if lt else None), lt))
     if res[False].status != 'ok' or res[True].status != 'ok':
         return out
     lay = {c: oracle.Layout(lines, res[c]) for c in (False, True)}
@@ -163,7 +194,7 @@ def evaluate(asm, lines, idx=0):
         if ln.kind == 'instr' and len(bn) == 4:
             elig = batch.ask('eligible %d' % int.from_bytes(bn, 'little'))
         runs = []
-        for sd in SEEDS:
+        for sd in seeds:
             a = batch.ask('run %s %d %d %d %d' % (bn.hex() or '00', lay[False].start[i], lay[False].start[i], sd, nn))
             b = batch.ask('run %s %d %d %d %d' % (bc.hex() or '00', lay[True].start[i], lay[True].start[i], sd, ncn))
             runs.append((sd, a, b))
@@ -232,16 +263,13 @@ def compare_effects(ln, offn, lenn, pca, rga, sta, offc, lenc, pcb, rgb, stb, la
         return None
     if pca == pcb:
         return None             # the same absolute (register-supplied) target
-    if fa != fb:
-        return 'one falls through, the other transfers (pc {} vs {})'.format(pca, pcb)
-    # both transfer: same label, or the same absolute (register) target, or same pc-relative literal
+    if (pca - offn) % M32 == (pcb - offc) % M32:
+        return None             # the same pc-relative displacement (offset written as a number)
     for name, v in lay[False].label_off.items():
         if v == pca and lay[True].label_off.get(name) == pcb:
-            return None
-    if pca == pcb:
-        return None
-    if (pca - offn) % M32 == (pcb - offc) % M32:
-        return None
+            return None         # the same label in both layouts
+    if fa != fb:
+        return 'one falls through, the other transfers (pc {} vs {})'.format(pca, pcb)
     return 'control transfers to different places: {} vs {}'.format(pca, pcb)
 
 
@@ -262,6 +290,10 @@ def run_sem(prop, tier, replay):
         results = pool.map(one_case, args, chunksize=4)
         if prop in ('C04', 'C12', 'C20'):
             results += pool.map(label_case, [(common.seed(), i, tier) for i in range(n // 2)], chunksize=4)
+            from harness import elig_sweep
+            sw = [(i, [l.to_json() for l in pl]) for i, pl in enumerate(elig_sweep.programs(tier))]
+            results += pool.map(sweep_case, sw, chunksize=1)
+            rep.count('sweep_programs', len(sw))
     kf = known.Known(prop)
     for r in results:
         rep.evaluations += 1
